@@ -40,6 +40,8 @@ def _(c):
     c.ensures("implies(not unwrap_annotated, forall(lambda o: mem(o, val) == exists(lambda i: 0 <= i and i < len(result) and mem(o, result[i])), 'obj'))", name="same_members")
     c.ensures("implies(not unwrap_annotated, all(not union_like(r) for r in result))", name="no_union_among_the_results")
     c.ensures("implies(not unwrap_annotated, all(flat_member(r, val) for r in result))", name="results_come_from_the_argument")
+    c.ensures("implies(isa(val, MultiValuedValue), seq_eq(result, val.vals))", name="a_union_yields_its_members_in_order")
+    c.ensures("implies(static(val) and not unwrap_annotated, all(static(r) for r in result))", name="static_members")
     c.ensures("implies(not isa(val, MultiValuedValue) and not (isa(val, AnnotatedValue) and isa(val.value, MultiValuedValue)) and not unwrap_annotated, len(result) == 1 and same(result[0], val))", name="identity_on_non_unions")
 
 
